@@ -146,6 +146,26 @@ Theorem C01_seq_reclaim_is_C07_reclaim : forall h prog kk sz acc buf hv,
 Proof. exact seq_reclaim. Qed.
 Print Assumptions C01_seq_reclaim_is_C07_reclaim.
 
+Theorem C01_seq_read_is_C07_read : forall h n prog kk sz acc buf hv,
+  exists fuel,
+    match rrun fuel h {| r_prog := RRead n false :: prog; r_k := kk; r_pc := RCall; r_size := sz; r_acc := acc; r_buf := buf;
+                         r_have := hv |} with
+    | Some (h', t', rc, b) => (to_rb h', rc, b) = read (to_rb h) n /\ r_pc t' = RCall /\ r_prog t' = prog
+    | None => False
+    end.
+Proof. exact seq_read. Qed.
+Print Assumptions C01_seq_read_is_C07_read.
+
+Theorem C01_seq_peek_is_C07_peek : forall h prog kk sz acc buf hv,
+  exists fuel,
+    match rrun fuel h {| r_prog := RPeek false :: prog; r_k := kk; r_pc := RCall; r_size := sz; r_acc := acc; r_buf := buf;
+                         r_have := hv |} with
+    | Some (h', t', rc, b) => (to_rb h', rc, b) = peek (to_rb h) /\ r_pc t' = RCall /\ r_prog t' = prog
+    | None => False
+    end.
+Proof. exact seq_peek. Qed.
+Print Assumptions C01_seq_peek_is_C07_peek.
+
 (* non-vacuity: a concrete run (the two threads alternating step by step) on a 16-word ring whose pointers start
    at word 13 and whose memory is full of stale marker words: the first chunk wraps around the end of the buffer,
    two chunks are published, one consumed by a blocking read, the other peeked; the third write is refused *)
